@@ -372,3 +372,191 @@ func (ex *Exec) known(t *Term) *Term {
 	}
 	return t
 }
+
+// ---------- encoding/gob (assumed contract, §4.3 of DESIGN.md) ----------
+//
+// Encoder.Encode(v) appends a fresh non-empty byte string gob(v) to its writer; the executor remembers
+// which Go value (and static type) each such byte string stands for. Decoder.Decode(&x) on gob(v)
+// succeeds exactly when v's type is identical to x's type and then stores v; on the empty input and on
+// a value of another type it fails with a non-nil error and leaves x untouched; on bytes of unknown
+// origin the outcome is unconstrained (an uninterpreted success flag and value).
+
+type HostVal struct {
+	Kind string
+	V    Value
+}
+
+type gobEntry struct {
+	T types.Type
+	V Value
+}
+
+// bytesLeaves decomposes a byte-string term into its ite leaves with their conditions.
+func bytesLeaves(t *Term, c *Term, f func(c, leaf *Term)) {
+	if c == TFalse {
+		return
+	}
+	if t.Op == "ite" {
+		bytesLeaves(t.Args[1], And(c, t.Args[0]), f)
+		bytesLeaves(t.Args[2], And(c, Not(t.Args[0])), f)
+		return
+	}
+	f(c, t)
+}
+
+func (ex *Exec) gobRegister(T types.Type, v Value, tag string) *Term {
+	t := Fresh("gob."+tag, SBytes)
+	ex.assume(Gt(App("blen", SInt, t), IntLit(0)))
+	if ex.gobReg == nil {
+		ex.gobReg = map[*Term]gobEntry{}
+	}
+	ex.gobReg[t] = gobEntry{T, v}
+	return t
+}
+
+// gobDecodeInto implements the assumed Decode contract for target pointer p of element type X.
+func (ex *Exec) gobDecodeInto(st *State, data *Term, p *PtrVal, X types.Type, pos ssa.Instruction) *Term {
+	var errT *Term = ErrNil
+	failErr := freshErr(ex, "gobdecode")
+	var stores []struct {
+		c *Term
+		v Value
+	}
+	bytesLeaves(data, TTrue, func(c, leaf *Term) {
+		if e, ok := ex.gobReg[leaf]; ok {
+			if gobCompatible(e.T, X) {
+				stores = append(stores, struct {
+					c *Term
+					v Value
+				}{c, e.V})
+				return
+			}
+			errT = Ite(c, failErr, errT)
+			return
+		}
+		if leaf == BytesNil || leaf == BytesLit("") || (leaf.Op == "app" && leaf.Name == "s2b") {
+			// empty input, or the raw bytes of a string (an IRI written verbatim): not a gob stream
+			errT = Ite(c, failErr, errT)
+			return
+		}
+		// bytes of unknown origin
+		okU := App("gob.ok."+typeName(X), SBool, leaf)
+		v := ex.symValue(X, ufNamer("gob.dec."+typeName(X), leaf), false)
+		stores = append(stores, struct {
+			c *Term
+			v Value
+		}{And(c, okU), v})
+		errT = Ite(And(c, Not(okU)), failErr, errT)
+	})
+	for _, s := range stores {
+		sub := &State{pc: And(st.pc, s.c), env: st.env, heap: st.heap}
+		if sub.pc == TFalse {
+			continue
+		}
+		old := ex.load(sub, p, X, 0)
+		ex.store(st, p, ex.merge(s.c, s.v, old), 0)
+	}
+	return errT
+}
+
+func init() {
+	externals["gob.NewEncoder"] = func(ex *Exec, st *State, a []Value, x *ssa.Call) Value {
+		return &HostVal{Kind: "gobenc", V: a[0]}
+	}
+	externals["gob.NewDecoder"] = func(ex *Exec, st *State, a []Value, x *ssa.Call) Value {
+		return &HostVal{Kind: "gobdec", V: a[0]}
+	}
+	externals["bytes.NewReader"] = func(ex *Exec, st *State, a []Value, x *ssa.Call) Value {
+		return &HostVal{Kind: "reader", V: a[0]}
+	}
+	externals["bytes.NewBuffer"] = func(ex *Exec, st *State, a []Value, x *ssa.Call) Value {
+		o := ex.newObj("bytes.Buffer", OCell, nil)
+		o.fresh = true
+		st.heap[o] = a[0]
+		return &PtrVal{Alts: []PtrAlt{{C: TTrue, O: o}}}
+	}
+	externals["(*gob.Encoder).Encode"] = func(ex *Exec, st *State, a []Value, x *ssa.Call) Value {
+		enc, ok := a[0].(*HostVal)
+		if !ok {
+			panic(unsupported("gob encoder of unknown origin"))
+		}
+		w := enc.V.(*IfaceVal)
+		iv := ex.normIface(a[1].(*IfaceVal))
+		if len(iv.Alts) != 1 || iv.Alts[0].T == nil {
+			panic(unsupported("gob Encode of a value with unknown static type"))
+		}
+		t := ex.gobRegister(iv.Alts[0].T, iv.Alts[0].V, typeName(iv.Alts[0].T))
+		for _, al := range w.Alts {
+			if p, ok := al.V.(*PtrVal); ok {
+				cur := ex.load(st, p, nil, x.Pos()).(*Term)
+				ex.store(st, p, BCat(cur, t), x.Pos())
+			} else {
+				panic(unsupported("gob encoder writing to a non-buffer writer"))
+			}
+		}
+		ex.note("assumed contract: gob Encoder.Encode never fails and writes a non-empty stream that Decoder.Decode maps back to the same value iff the target type is identical")
+		return ErrNil
+	}
+	externals["(*gob.Decoder).Decode"] = func(ex *Exec, st *State, a []Value, x *ssa.Call) Value {
+		dec, ok := a[0].(*HostVal)
+		if !ok {
+			panic(unsupported("gob decoder of unknown origin"))
+		}
+		var data *Term
+		switch r := dec.V.(type) {
+		case *IfaceVal:
+			for _, al := range ex.normIface(r).Alts {
+				switch h := al.V.(type) {
+				case *HostVal:
+					data = h.V.(*Term)
+				case *PtrVal:
+					data = ex.load(st, h, nil, x.Pos()).(*Term)
+				}
+			}
+		}
+		if data == nil {
+			panic(unsupported("gob decoder reading from an unknown reader"))
+		}
+		iv := ex.normIface(a[1].(*IfaceVal))
+		if len(iv.Alts) != 1 || iv.Alts[0].T == nil {
+			panic(unsupported("gob Decode into a value with unknown static type"))
+		}
+		pt, ok := iv.Alts[0].T.Underlying().(*types.Pointer)
+		if !ok {
+			return freshErr(ex, "gobdecode-nonpointer")
+		}
+		return ex.gobDecodeInto(st, data, iv.Alts[0].V.(*PtrVal), pt.Elem(), x)
+	}
+	externals["(time.Time).GobEncode"] = func(ex *Exec, st *State, a []Value, x *ssa.Call) Value {
+		tt := x.Call.Args[0].Type()
+		return &TupleVal{V: []Value{ex.gobRegister(tt, a[0], "time"), ErrNil}}
+	}
+	externals["(time.Time).MarshalBinary"] = externals["(time.Time).GobEncode"]
+	externals["(*time.Time).GobDecode"] = func(ex *Exec, st *State, a []Value, x *ssa.Call) Value {
+		pt := x.Call.Args[0].Type().Underlying().(*types.Pointer).Elem()
+		return ex.gobDecodeInto(st, a[1].(*Term), a[0].(*PtrVal), pt, x)
+	}
+	externals["(*time.Time).UnmarshalBinary"] = externals["(*time.Time).GobDecode"]
+}
+
+// gobCompatible: gob matches values by wire kind, not by Go type name.
+func gobCompatible(a, b types.Type) bool {
+	a, b = a.Underlying(), b.Underlying()
+	switch x := a.(type) {
+	case *types.Slice:
+		y, ok := b.(*types.Slice)
+		return ok && gobCompatible(x.Elem(), y.Elem())
+	case *types.Map:
+		y, ok := b.(*types.Map)
+		return ok && gobCompatible(x.Key(), y.Key()) && gobCompatible(x.Elem(), y.Elem())
+	case *types.Basic:
+		y, ok := b.(*types.Basic)
+		if !ok {
+			return false
+		}
+		ints := func(k *types.Basic) bool { return k.Info()&types.IsInteger != 0 && k.Info()&types.IsUnsigned == 0 }
+		uints := func(k *types.Basic) bool { return k.Info()&types.IsUnsigned != 0 }
+		return x.Kind() == y.Kind() || ints(x) && ints(y) || uints(x) && uints(y) || x.Info()&types.IsFloat != 0 && y.Info()&types.IsFloat != 0
+	}
+	return types.Identical(a, b)
+}
